@@ -127,6 +127,9 @@ pub fn judge(docs: &[&DocEntry], text: &str, rank: u64) -> Vec<Violation> {
         .collect()
 }
 
+/// hashes of all renderings checked in this run (across sweeps)
+static ALL_RENDERINGS: std::sync::Mutex<Option<HashSet<u64>>> = std::sync::Mutex::new(None);
+
 struct Acc {
     evals: u64,
     seen: HashSet<u64>,
@@ -209,9 +212,15 @@ pub fn sweep(ctx: &Ctx, label: &str, pool: &[PoolName], k: usize, params: &TreeP
     for a in res.accs {
         distinct.extend(a.seen);
     }
-    ctx.add("evaluations", evals);
-    ctx.add("distinct_nontrivial", distinct.len() as u64);
+    ctx.add("evaluations", evals * presets.len() as u64);
+    ctx.add("histories", evals);
     ctx.add("renderings_checked_with_syn", checked);
+    {
+        let mut all = ALL_RENDERINGS.lock().unwrap();
+        let set = all.get_or_insert_with(HashSet::new);
+        set.extend(distinct.iter().cloned());
+        ctx.set("distinct_nontrivial", json!(set.len()));
+    }
     ctx.push(
         "sweeps",
         json!({"sweep": label, "pool": pool.len(), "subset_size": k, "subsets": subs.len(), "subsets_done": res.processed,
@@ -281,7 +290,12 @@ fn chains(ctx: &Ctx, pool: &[PoolName], max_depth: usize) {
         distinct.extend(a.1);
     }
     ctx.add("evaluations", evals);
-    ctx.add("distinct_nontrivial", distinct.len() as u64);
+    {
+        let mut all = ALL_RENDERINGS.lock().unwrap();
+        let set = all.get_or_insert_with(HashSet::new);
+        set.extend(distinct.iter().cloned());
+        ctx.set("distinct_nontrivial", json!(set.len()));
+    }
     ctx.push("sweeps", json!({"sweep": "chains", "max_depth": max_depth, "subsets": subs.len(), "histories": evals, "distinct_renderings": distinct.len()}));
     if !res.complete {
         ctx.set("exhaustive", json!(false));
@@ -395,7 +409,7 @@ pub fn run(ctx: &Ctx) {
     }
     ctx.set(
         "rule",
-        json!("every ordered tree shape up to the node bound, element names assigned in all ways from every k-subset of the adversarial pool (keywords in several cases, case/separator variants, prefixed, xmlns, concatenations, String/Option/Vec, identifier traps, digits, non-ASCII, `_`), up to the stated number of nodes decorated with text and/or attributes named from the same subset; as one document and split into two (parse + extend); plus chains of one or two names. Each distinct rendering (both presets) is parsed with syn and with the line grammar; distinct_nontrivial = number of distinct renderings"),
+        json!("every ordered tree shape up to the node bound, element names assigned in all ways from every k-subset of the adversarial pool (keywords in several cases, case/separator variants, prefixed, xmlns, concatenations, String/Option/Vec, identifier traps, digits, non-ASCII, `_`), up to the stated number of nodes decorated with text and/or attributes named from the same subset; as one document and split into two (parse + extend); plus chains of one or two names. Each distinct rendering is parsed with syn and with the line grammar; evaluations = renderings produced (histories x presets rendered), distinct_nontrivial = number of distinct rendered texts among them"),
     );
     ctx.assume("identifier legality is decided by syn 2 (`syn::parse_str::<Ident>`), syntax by `syn::parse_file`");
 }
